@@ -289,6 +289,23 @@ def run(ctx):
     okn, whyn = _nd_mask(fnn)
     ctx.check(okn, "C03.f", "HistogramND.fill_n:mask", whyn, whyn, fnn.where)
 
+    # ---- C03.e coercion before any accumulation (shared with C13.a) -----------------------------------------------
+    ctx.rule("C03.e", "fill / fill_n coerce the dtype for the weight(s) before the first store, so neither contents nor missed values are truncated", 4)
+    from rules import c13
+    c13.check_fill_coercion(ctx, "C03.e", m)
+    # polarity / axis of the ND row mask
+    from rules import wiring
+    pol = None
+    for n in ast.walk(fnn.node):
+        if isinstance(n, ast.Assign) and isinstance(n.value, ast.UnaryOp) and "isnan" in U(n.value):
+            pol = (wiring.mask_polarity(n.value), U(n.value))
+        if isinstance(n, ast.Subscript) and isinstance(n.slice, ast.UnaryOp) and "isnan" in U(n.slice):
+            pol = (wiring.mask_polarity(n.slice), U(n.slice))
+    ctx.check(pol is not None and pol[0] == ("KEEP", "rows"), "C03.f", "HistogramND.fill_n:mask-polarity",
+              f"row mask `{pol[1] if pol else None}` keeps exactly the rows without any NaN",
+              f"row mask `{pol[1] if pol else None}` has polarity/axis {pol[0] if pol else None}: rows with a NaN in some coordinate must be dropped "
+              "(~isnan(...).any(axis=1))", fnn.where)
+
 
 def _nd_mask(fi):
     """In every path where rows are filtered by a NaN mask and weights are present, weights are filtered by it too."""
